@@ -10,17 +10,33 @@ open Nervus Nervus.Vacuum Nervus.Driver
 
 structure St where
   isOpen : Bool
-  hasSegment : Bool
+  log : List Tx          -- the committed manifest / checkpoint history of the WAL, segments as abstract ids
+  epoch : Nat            -- the running engine's manifest_epoch
+  segs : List Nat        -- … and its published segments
+  pending : Bool         -- a published L0 run exists (a transaction with edges / properties since the last compaction)
+  txid : Nat
+  fresh : Nat
+  damaged : Bool         -- vacuum ran with roots that differ from the ones the engine recovers
 
-def init : St := ⟨true, false⟩
+def init : St := ⟨true, [], 0, [], false, 1, 10, false⟩
 
 def L : Layout := Layout.real
 
-/-- outcome of the mark phase on a database with / without a segment -/
-def markOutcome (seg : Bool) : String :=
+def vRoots (st : St) := (vacuumScan ScanOps.vacuumReal st.log).roots
+def eRoots (st : St) := (engineScan ScanOps.engineReal st.log).roots
+
+/-- outcome of the mark phase: the CSR layout vacuum reads, and whether it starts from the roots
+    the engine recovers from the same log -/
+def markOutcome (st : St) : String :=
+  let seg := !(vRoots st).1.isEmpty
   if seg && !L.magicOk then "err"
+  else if (eRoots st).1.any (fun x => !(vRoots st).1.contains x) then "missing"
+  else if (vRoots st).2 != (eRoots st).2 then "missing"
   else if seg && L.csrLists < Generated.csrMetaLists then "missing"
   else "ok"
+
+def manifestTx (st : St) (segs : List Nat) (epoch : Nat) : Tx :=
+  ⟨st.txid, [.manifest epoch segs 1 1, .checkpoint st.txid epoch 1 1]⟩
 
 def idList (s : String) : Option (List Nat) :=
   if s == "-" then some [] else (s.splitOn ";").mapM (·.toNat?)
@@ -71,18 +87,37 @@ def graphLine (ws : List String) : Option String :=
 def step (st : St) (ws : List String) : St × String × String × String :=
   let wr := fun (st' : St) => if st.isOpen then (st', "ok", "ok", "") else (st, "closed", "ok", "")
   match ws with
-  | ["nodes", _] => wr st
-  | ["edge", _, _] => wr st
-  | ["prop", _, _] => wr st
+  | ["bulk", _, _] =>
+    -- BulkLoader::initialize_wal: one tx with ManifestSwitch{epoch 0, segments} + Checkpoint{epoch 0}
+    ({ st with log := [⟨0, [.manifest 0 [1] 1 1, .checkpoint 0 0 1 1]⟩], segs := [1], epoch := 0, isOpen := true },
+      "ok", "ok", "")
+  | ["nodes", _] => wr { st with txid := st.txid + 1 }
+  | ["edge", _, _] => wr { st with txid := st.txid + 1, pending := true }
+  | ["prop", _, _] => wr { st with txid := st.txid + 1, pending := true }
   | ["vec", _] => wr st
   | ["index"] => wr st
-  | ["compact"] => wr { st with hasSegment := true }
+  | ["compact"] =>
+    if st.isOpen && st.pending then
+      let segs := st.fresh :: st.segs
+      wr { st with log := st.log ++ [manifestTx st segs (st.epoch + 1)], epoch := st.epoch + 1, segs := segs,
+                   pending := false, txid := st.txid + 1, fresh := st.fresh + 1 }
+    else wr st
+  | ["ckclose"] =>
+    if st.isOpen then
+      -- checkpoint_on_close: with no pending run the WAL is rewritten as ONE snapshot tx that re-emits the current manifest
+      let st' := if st.pending then st else { st with log := [manifestTx st st.segs st.epoch], txid := st.txid + 1 }
+      ({ st' with isOpen := false }, "ok", "ok", "")
+    else (st, "closed", "ok", "")
   | ["close"] => ({ st with isOpen := false }, "ok", "-", "")
-  | ["reopen"] => ({ st with isOpen := true }, "ok", "ok", "")
-  | ["reach"] => if st.isOpen then (st, markOutcome st.hasSegment, "ok", "") else (st, "closed", "-", "")
+  | ["reopen"] =>
+    if st.damaged then ({ st with isOpen := false }, "err", "ok", "")
+    else ({ st with isOpen := true, epoch := (engineScan ScanOps.engineReal st.log).epoch, segs := (eRoots st).1 }, "ok", "ok", "")
+  | ["reach"] => if st.isOpen then (st, markOutcome st, "ok", "") else (st, "closed", "-", "")
   | ["vacuum"] =>
     if st.isOpen then (st, "open", "-", "")
-    else (st, (if markOutcome st.hasSegment == "err" then "err" else "ok"), "ok", "")
+    else
+      let o := markOutcome st
+      if o == "err" then (st, "err", "ok", "") else ({ st with damaged := st.damaged || o == "missing" }, "ok", "ok", "")
   | "g" :: rest => (st, (graphLine rest).getD "bad-op", "-", "")
   | ["dump"] => if st.isOpen then (st, "ok", "ok", "") else (st, "closed", "-", "")
   | _ => (st, "bad-op", "-", "")
